@@ -474,6 +474,7 @@ impl MM {
             fb_sources: None,
             style: self.json.clone(),
             unknown_keys: false,
+            mappings_override: None,
         }
     }
 
@@ -791,6 +792,9 @@ pub struct DocModel {
     pub fb_sources: Option<Vec<Option<Vec<FbMap>>>>,
     pub style: JsonStyle,
     pub unknown_keys: bool,
+    /// write this text as `mappings` instead of encoding `lines` (fault injection)
+    #[serde(default)]
+    pub mappings_override: Option<String>,
 }
 
 fn k_render<T>(k: &K<T>, f: impl Fn(&T) -> String) -> Option<String> {
@@ -857,7 +861,13 @@ impl DocModel {
                 }))
             }),
         );
-        push("mappings", Some(json_str(&self.mappings(), false)));
+        push(
+            "mappings",
+            Some(json_str(
+                self.mappings_override.as_deref().unwrap_or(&self.mappings()),
+                false,
+            )),
+        );
         if let Some(r) = &self.range_lines {
             push(
                 "rangeMappings",
